@@ -945,6 +945,9 @@ func (ex *Exec) convert(from, to types.Type, x Value) Value {
 		}
 	case UPtr:
 		if tb, ok := tu.(*types.Basic); ok {
+			if tb.Info()&types.IsInteger != 0 && tb.Kind() != types.Uintptr {
+				return ex.ptrAddr(xv) // numeric address (only differences and zero tests are meaningful)
+			}
 			if tb.Kind() == types.UnsafePointer {
 				if xv.Add == 0 {
 					return xv.P
@@ -1303,5 +1306,29 @@ func (ex *Exec) strEq(a SymStr, b Value) *term.T {
 		return r
 	}
 	ex.unsupported(fmt.Sprintf("string comparison with %T", b))
+	return nil
+}
+
+// ptrAddr gives a pointer a numeric address: every object gets a fresh, widely
+// spaced, page-aligned base; a byte pointer adds its index.
+func (ex *Exec) ptrAddr(u UPtr) *term.T {
+	base := func(loc *Value) uint64 {
+		if a, ok := ex.objAddr[loc]; ok {
+			return a
+		}
+		ex.addrNext += 1 << 44
+		ex.objAddr[loc] = ex.addrNext
+		return ex.addrNext
+	}
+	switch p := u.P.(type) {
+	case BPtr:
+		return ex.C.Add(ex.C.Const(64, base(p.Base)+uint64(u.Add)), p.Idx)
+	case Ptr:
+		if p.Loc == nil {
+			return ex.C.Const(64, 0)
+		}
+		return ex.C.Const(64, base(p.Loc)+uint64(u.Add))
+	}
+	ex.unsupported("numeric address of this pointer")
 	return nil
 }
